@@ -389,10 +389,18 @@ func eval(c fcase) ev.Result {
 	link.MaxContent, svc.Handler.MaxContentLength = 1<<18, 1<<18
 	n68, capped := 0, false
 	roundCap := expectMsgs*max(1, 1100/max(1, c.OwnMTU-40)+1) + 60
+	started := time.Now()
 	link.OnRequest = func(ex *deploy.Exchange) *deploy.Action {
 		if ex.ReqType == 68 {
 			n68++
-			if n68 > roundCap {
+			// Rounds are polls, not time: while no fault has been applied (a clean transfer, or a
+			// wget whose HTTP goroutine has not been scheduled yet on a loaded machine) the cap only
+			// counts once 12 s have passed as well; after a fault the receiver may wait for ever
+			// and the round count alone ends the run.
+			f.mu.Lock()
+			applied := f.applied
+			f.mu.Unlock()
+			if n68 > roundCap && (applied || time.Since(started) > 12*time.Second) {
 				capped = true
 				cancel()
 			}
@@ -610,10 +618,17 @@ func evalSeq(c seqCase) ev.Result {
 	link := deploy.NewLink(svc)
 	n68, capped := 0, false
 	roundCap := total*3 + 80
+	started := time.Now()
 	link.OnRequest = func(ex *deploy.Exchange) *deploy.Action {
 		if ex.ReqType == 68 {
 			n68++
-			if n68 > roundCap {
+			applied := false
+			for _, f := range fs {
+				f.mu.Lock()
+				applied = applied || f.applied
+				f.mu.Unlock()
+			}
+			if n68 > roundCap && (applied || time.Since(started) > 12*time.Second) {
 				capped = true
 				cancel()
 			}
